@@ -142,6 +142,10 @@ fn outputs_by_writer(sent: &[rustdds::verif::net::Sent], captured: &mut Vec<Vec<
                 Sub::InfoDst { prefix } => dst = Some(*prefix),
                 Sub::AckNack { writer, set, count, .. } => {
                     let w = dst.map(|p| writer_of_prefix(&p)).unwrap_or(writer[2]);
+                    // every writer was matched with the unicast locator 127.0.0.1:(20000 + w): that is where its replies go
+                    if (1..=9).contains(&w) && !s.dest.ends_with(&format!(":{}", 20_000 + w as u32)) {
+                        out.push((100 + w, vec![json!({"misdirected": s.dest})], vec![]));
+                    }
                     let rec = json!({"base": set.base, "set": set.members(), "count": count, "nbits": set.num_bits});
                     match out.iter_mut().find(|x| x.0 == w) {
                         Some(x) => x.1.push(rec),
@@ -393,6 +397,10 @@ impl Exec {
 
     fn spont(&mut self, o: Vec<(u8, Vec<Value>, Vec<Value>)>, out: &mut Vec<Value>) {
         for (w, a, n) in o {
+            if w >= 100 {
+                out.push(json!({"ev":"Misdirected","w":w - 100,"dest":a[0]["misdirected"]}));
+                continue;
+            }
             out.push(json!({"ev":"Spont","w":w,"acks":a,"nfs":n}));
         }
     }
